@@ -74,7 +74,17 @@ def extra_stored_files(tier, seed, prop):
         if ver == 'SSE':
             shapes[0]['kind'] = 'dynamic'
             shapes[0].pop('eyedata', None)
-        out.append({'builder': {'version': ver, 'salt': rng.below(1 << 30), 'nodes': rng.below(3), 'shapes': shapes}})
+        out.append({'store_sorted': k % 2 == 0, 'builder': {'version': ver, 'salt': rng.below(1 << 30), 'nodes': rng.below(3), 'shapes': shapes}})
+    # strip-based geometry (NiTriStrips, strip partitions): counts and lengths of several strips precede the points
+    nstrips = 2 if tier == 'quick' else 30
+    for k in range(nstrips):
+        ver = ['FO3', 'OB', 'SK'][k % 3]
+        sh = hist.shape_spec(rng, ver, 'quick', name='st%d' % k, want_skin=(k % 2 == 1))
+        sh['nv'], sh['nt'] = rng.range(6, 20), rng.range(4, 16)
+        sh['kind'] = 'strips'
+        for key in ('bones', 'wpv', 'partitions', 'some_unweighted'):
+            sh.pop(key, None)
+        out.append({'store_sorted': True, 'builder': {'version': ver, 'salt': rng.below(1 << 30), 'nodes': rng.below(2), 'shapes': [sh]}})
     small = [n for n, sz in sample_names('in') if sz < 30000]
     nedit = 3 if tier == 'quick' else 120
     for _ in range(nedit):
